@@ -1,5 +1,6 @@
 import Babble.Proofs.HGOrder
 import Babble.Proofs.HGBlocks
+import Babble.Proofs.HGReceived
 import Babble.Proofs.DagVote
 /-! # C04 — committed order extends causality; events are committed whole and once
     About the operational model `Babble.HG` (no quorum reasoning, any validator-set behaviour) and,
@@ -62,5 +63,16 @@ example : blockOf 0 3 { round := 3, ts := 7, peers := [0, 1], events := [], root
      { id := "b", creator := 1, index := 0, sp := "", op := "", ts := 2, key := 9, mid := true, txs := [3], lamport := some 4 }]
     = some { index := 0, rr := 3, ts := 7, txs := [1, 2, 3], itx := [], events := ["a", "b"], peers := [0, 1] } := by
   rfl
+
+/-- **every event is committed at most once** (operational model, any validator-set behaviour): for
+    every sequence of insertion attempts — admissible or not — of events with pairwise distinct ids
+    into a node started from genesis, no delivered block lists an event twice and no two delivered
+    blocks share an event. (Distinct ids: the id is the SHA-256 of the body; the same event offered
+    twice is refused by the admission checks, C07.) -/
+theorem every_event_committed_at_most_once (g : List Nat) (es : List Ev) (hes : ∀ e ∈ es, e.round = none)
+    (hnd : (es.map (·.id)).Nodup) :
+    (∀ b ∈ (runAll (St.init g) es).blocks, b.events.Nodup) ∧
+    (runAll (St.init g) es).blocks.Pairwise (fun a b => ∀ x ∈ a.events, x ∉ b.events) :=
+  committed_once g es hes hnd
 
 end Babble.Props.C04
